@@ -249,3 +249,298 @@ Proof.
   - cbn. destruct x; try contradiction; destruct y; try reflexivity;
       match goal with |- context[in_int64 ?q] => destruct (in_int64 q) end; reflexivity.
 Qed.
+
+(* ---- replace *)
+Lemma split_aux_nonempty s sep k skip cur : split_aux s sep false k skip cur <> [].
+Proof.
+  revert k skip cur. induction s as [|c t IH]; intros k skip cur; cbn [split_aux]; [discriminate|].
+  destruct skip; [|apply IH]. destruct k; [apply IH|]. destruct (has_prefix (c :: t) sep); [intro HH; discriminate HH|apply IH].
+Qed.
+
+Lemma split_aux_cur sep : sep <> [] -> forall s k cur,
+  split_aux s sep false k 0 cur = prepend (rev cur) (split_aux s sep false k 0 []).
+Proof.
+  intros Hne s k cur.
+  rewrite (split_aux_spec sep Hne s k 0 cur) by (intros H; contradiction).
+  rewrite (split_aux_spec sep Hne s k 0 []) by (intros H; contradiction).
+  cbn [rev]. rewrite (prepend_nil (cut _ _ _ _)) by apply cut_nonempty. reflexivity.
+Qed.
+
+Lemma concat_with_prepend new c l : l <> [] -> concat_with new (prepend [c] l) = c :: concat_with new l.
+Proof. destruct l as [|x r]; [contradiction|]. intros _. cbn. destruct r; reflexivity. Qed.
+
+Lemma replace_aux_spec old new : old <> [] -> forall s k skip,
+  replace_aux s old new k skip = concat_with new (split_aux s old false k skip []).
+Proof.
+  intros Hne. induction s as [|c t IH]; intros k skip; cbn [replace_aux split_aux]; [reflexivity|].
+  destruct skip as [|j]; [|apply IH].
+  destruct k as [|k'].
+  - rewrite (split_aux_cur old Hne t 0 [c]). cbn [rev app].
+    rewrite concat_with_prepend by apply split_aux_nonempty. rewrite IH. reflexivity.
+  - destruct (has_prefix (c :: t) old).
+    + cbn [rev app]. rewrite IH.
+      destruct (split_aux t old false k' (length old - 1) []) eqn:E; [exfalso; eapply split_aux_nonempty; exact E|].
+      cbn [concat_with app]. reflexivity.
+    + rewrite (split_aux_cur old Hne t (S k') [c]). cbn [rev app].
+      rewrite concat_with_prepend by apply split_aux_nonempty. rewrite IH. reflexivity.
+Qed.
+
+(* joining the pieces with the separator gives the string back *)
+Fixpoint valid_occs (s sep : bytes) (from : nat) (l : list nat) : Prop :=
+  match l with
+  | [] => True
+  | i :: r => (from <= i)%nat /\ occurs_at s sep i = true /\ valid_occs s sep (i + length sep) r
+  end.
+
+Lemma occ_scan_valid s sep cands : forall next, valid_occs s sep next (occ_scan s sep cands next).
+Proof.
+  induction cands as [|j r IH]; intros next; cbn [occ_scan]; [exact I|].
+  destruct (Nat.leb next j && occurs_at s sep j) eqn:E; [|apply IH].
+  apply andb_true_iff in E. destruct E as [E1 E2]. apply Nat.leb_le in E1.
+  cbn. repeat split; [exact E1|exact E2|apply IH].
+Qed.
+
+Lemma valid_firstn s sep l : forall from k, valid_occs s sep from l -> valid_occs s sep from (firstn k l).
+Proof.
+  induction l as [|i r IH]; intros from k H; destruct k; cbn; try exact I.
+  destruct H as (H1 & H2 & H3). repeat split; try assumption. apply IH. exact H3.
+Qed.
+
+Lemma skipn_plus {A} (l : list A) : forall a b, skipn (a + b) l = skipn b (skipn a l).
+Proof.
+  induction l as [|x r IH]; intros a b.
+  - rewrite !skipn_nil. reflexivity.
+  - destruct a as [|a']; [reflexivity|]. cbn [Nat.add skipn]. apply IH.
+Qed.
+
+Lemma concat_cut s sep l : forall from,
+  valid_occs s sep from l -> concat_with sep (cut s (length sep) l from) = skipn from s.
+Proof.
+  induction l as [|i r IH]; intros from H; cbn [cut concat_with]; [reflexivity|].
+  destruct H as (H1 & H2 & H3).
+  destruct (cut s (length sep) r (i + length sep)) eqn:Ec; [exfalso; eapply cut_nonempty; exact Ec|].
+  rewrite <- Ec, IH by exact H3.
+  rewrite occurs_at_prefix in H2. apply has_prefix_app in H2. destruct H2 as [t Ht].
+  assert (Hs : skipn (i + length sep) s = t).
+  { rewrite skipn_plus, Ht, skipn_app, skipn_all, Nat.sub_diag. reflexivity. }
+  rewrite Hs, <- Ht.
+  replace i with (from + (i - from))%nat at 2 by lia.
+  rewrite skipn_plus. apply firstn_skipn.
+Qed.
+
+Lemma weave_spec s new k : replace_empty s new k = weave s new k.
+Proof.
+  revert s. induction k as [|k IH]; intros s; [destruct s; reflexivity|].
+  destruct s as [|c t]; cbn; [apply app_nil_r|]. rewrite IH. reflexivity.
+Qed.
+
+Lemma weave_nil s k : weave s [] k = s.
+Proof. revert s. induction k as [|k IH]; intros s; [destruct s; reflexivity|]. destruct s; cbn; [reflexivity|]. rewrite IH. reflexivity. Qed.
+
+Lemma weave_0 s new : weave s new 0 = s.
+Proof. destruct s; reflexivity. Qed.
+
+Lemma nonempty_match {A B} (l : list A) (a b : B) :
+  l <> [] -> match l with [] => a | _ :: _ => b end = b.
+Proof. destruct l; [contradiction|reflexivity]. Qed.
+
+Lemma go_replace_empty s new n :
+  in_int64 n = true ->
+  go_replace s [] new n =
+  replace_spec s [] new (cap (if n <? 0 then None else Some n) (S (length s))).
+Proof.
+  intros Hn. unfold go_replace, replace_spec.
+  rewrite (count_spec_eq s []). unfold count_spec.
+  destruct (bytes_eqb [] new) eqn:Eb.
+  - apply bytes_eqb_eq in Eb. subst new. cbn [orb]. rewrite weave_nil. reflexivity.
+  - cbn [orb]. destruct (n =? 0) eqn:E0.
+    + assert (n = 0) by lia. subst n. change (0 <? 0) with false. cbv iota. cbn [cap].
+      replace (Z.to_nat (Z.min 0 (Z.of_nat (S (length s))))) with 0%nat by lia.
+      symmetry. apply weave_0.
+    + destruct (Z.of_nat (length s) + 1 =? 0) eqn:E1; [lia|].
+      rewrite weave_spec. destruct (n <? 0) eqn:E2; cbn [orb cap].
+      * f_equal. lia.
+      * destruct (Z.of_nat (length s) + 1 <? n) eqn:E3; f_equal; lia.
+Qed.
+
+Lemma go_replace_nonempty s old new n :
+  old <> [] -> in_int64 n = true ->
+  go_replace s old new n =
+  replace_spec s old new (cap (if n <? 0 then None else Some n) (S (length s))).
+Proof.
+  intros Hne Hn. unfold go_replace, replace_spec.
+  rewrite !nonempty_match by assumption.
+  pose proof (occurrences_length s old Hne) as HL.
+  unfold split_spec.
+  destruct (bytes_eqb old new) eqn:Eb.
+  - apply bytes_eqb_eq in Eb. subst new. cbn [orb]. symmetry.
+    rewrite concat_cut; [reflexivity|].
+    destruct (n <? 0); cbn [cap limit]; [|apply valid_firstn]; apply occ_scan_valid.
+  - cbn [orb]. destruct (n =? 0) eqn:E0.
+    + assert (n = 0) by lia. subst n. change (0 <? 0) with false. cbv iota. cbn [cap limit].
+      replace (Z.to_nat (Z.min 0 (Z.of_nat (S (length s))))) with 0%nat by lia.
+      cbn [firstn cut concat_with skipn]. reflexivity.
+    + rewrite count_spec_eq. unfold count_spec. rewrite nonempty_match by assumption.
+      destruct (Z.of_nat (length (occurrences s old)) =? 0) eqn:E1.
+      * assert (Ho : occurrences s old = []) by (destruct (occurrences s old); [reflexivity|cbn in E1; lia]).
+        rewrite Ho. destruct (n <? 0); cbn [cap limit]; [|rewrite firstn_nil]; reflexivity.
+      * rewrite replace_aux_spec by assumption.
+        rewrite split_aux_spec by (try assumption; intros H; contradiction).
+        cbn [rev]. rewrite prepend_nil by apply cut_nonempty.
+        rewrite occ_scan_all_positions by assumption. fold (occurrences s old).
+        f_equal. f_equal.
+        destruct (n <? 0) eqn:E2; cbn [orb cap limit].
+        -- apply firstn_all2. lia.
+        -- destruct (Z.of_nat (length (occurrences s old)) <? n) eqn:E3.
+           ++ rewrite !firstn_all2 by lia. reflexivity.
+           ++ f_equal. lia.
+Qed.
+
+Lemma go_replace_spec s old new n :
+  in_int64 n = true ->
+  go_replace s old new n =
+  replace_spec s old new (cap (if n <? 0 then None else Some n) (S (length s))).
+Proof.
+  intros Hn. destruct old as [|d old'].
+  - apply go_replace_empty. exact Hn.
+  - apply go_replace_nonempty; [discriminate|exact Hn].
+Qed.
+
+Lemma replace_correct_lemma : forall recv args,
+  string_replace recv args = of_spec (spec_string_method SReplace recv args).
+Proof.
+  intros recv args. unfold string_replace, arity, int_at. cbn [spec_string_method].
+  destruct args as [|a [|b [|c [|d r]]]]; try reflexivity.
+  - cbn. destruct a; reflexivity.
+  - cbn [length Nat.leb andb negb str_at nth_error opt_count].
+    destruct a; try reflexivity. destruct b; try reflexivity.
+    cbn [of_spec]. do 2 f_equal.
+    rewrite (go_replace_spec recv s s0 (-1) eq_refl). reflexivity.
+  - cbn [length Nat.leb andb negb str_at nth_error].
+    destruct a; try reflexivity; destruct b; try reflexivity.
+    unfold opt_count. destruct c; try reflexivity.
+    rewrite <- (in_int64_word' z). destruct (in_int64 z) eqn:Ez; [|reflexivity].
+    cbn [of_spec]. do 2 f_equal. apply go_replace_spec. exact Ez.
+  - cbn. destruct a; try reflexivity. destruct b; try reflexivity. destruct c; reflexivity.
+Qed.
+
+(* ---- splitlines *)
+Fixpoint lines_raw (s : bytes) (save : bool) (cur : bytes) : list bytes :=
+  match s with
+  | [] => [rev cur]
+  | c :: t => if N.eqb 10 c
+              then (rev cur ++ (if save then [10%N] else [])) :: lines_raw t save []
+              else lines_raw t save (c :: cur)
+  end.
+Fixpoint ends_nl (s cur : bytes) : bool :=
+  match s with
+  | [] => match cur with [] => true | _ => false end
+  | c :: t => if N.eqb 10 c then ends_nl t [] else ends_nl t (c :: cur)
+  end.
+
+Lemma has_prefix_nl c t : has_prefix (c :: t) [10%N] = N.eqb 10 c.
+Proof. cbn. destruct t; apply andb_true_r. Qed.
+
+Lemma count_aux_nonneg s sub k : 0 <= count_aux s sub k.
+Proof.
+  revert k. induction s as [|c t IH]; intros k; cbn [count_aux]; [lia|].
+  destruct k; [|apply IH]. destruct (has_prefix (c :: t) sub); [specialize (IH (length sub - 1)%nat); lia|apply IH].
+Qed.
+
+Lemma split_aux_lines save : forall s k cur,
+  count_aux s [10%N] 0 <= Z.of_nat k ->
+  split_aux s [10%N] save k 0 cur = lines_raw s save cur.
+Proof.
+  induction s as [|c t IH]; intros k cur Hk; [reflexivity|].
+  cbn [split_aux lines_raw]. cbn [count_aux] in Hk. rewrite has_prefix_nl in *.
+  change (length [10%N] - 1)%nat with 0%nat in *.
+  pose proof (count_aux_nonneg t [10%N] 0) as Hc.
+  destruct (N.eqb 10 c) eqn:E.
+  - destruct k as [|k']; [lia|]. f_equal. apply IH. lia.
+  - destruct k as [|k']; apply IH; lia.
+Qed.
+
+Lemma lines_raw_spec save : forall s cur,
+  lines_raw s save cur = lines s save cur ++ (if ends_nl s cur then [[]] else []).
+Proof.
+  induction s as [|c t IH]; intros cur; cbn [lines_raw lines ends_nl].
+  - destruct cur; reflexivity.
+  - rewrite (N.eqb_sym c 10). destruct (N.eqb 10 c) eqn:E.
+    + rewrite IH. cbn [app]. f_equal. apply N.eqb_eq in E. subst c.
+      destruct save; cbn [rev]; [reflexivity|apply app_nil_r].
+    + apply IH.
+Qed.
+
+Lemma ends_nl_suffix : forall s cur, s <> [] -> ends_nl s cur = has_suffix s [10%N].
+Proof.
+  induction s as [|c t IH]; intros cur Hne; [contradiction|].
+  cbn [ends_nl]. destruct t as [|d t'].
+  - unfold has_suffix. cbn. destruct (N.eqb 10 c); reflexivity.
+  - assert (Ht : has_suffix (c :: d :: t') [10%N] = has_suffix (d :: t') [10%N]).
+    { unfold has_suffix. cbn [rev]. 
+      destruct (rev t' ++ [d]) as [|x r] eqn:Er; [destruct (rev t'); discriminate|].
+      cbn [app has_prefix rev]. f_equal. destruct r; reflexivity. }
+    rewrite Ht. destruct (N.eqb 10 c); apply IH; discriminate.
+Qed.
+
+Lemma splitlines_correct_lemma : forall recv args,
+  blen recv <= 2^61 ->
+  string_splitlines recv args = of_spec (spec_string_method SSplitlines recv args).
+Proof.
+  intros recv args Hn. unfold string_splitlines, arity, bool_at. cbn [spec_string_method].
+  assert (Hcore : forall keep : bool, recv <> [] ->
+            (let ls := if keep then go_split_after recv [10%N] else go_split recv [10%N] in
+             if has_suffix recv [10%N] then removelast ls else ls) = lines recv keep []).
+  { intros keep Hne. cbv zeta.
+    assert (Hg : forall save, gen_split recv [10%N] save (-1) = lines_raw recv save []).
+    { intros save. unfold gen_split. change (-1 =? 0) with false. change (-1 <? 0) with true. cbv iota.
+      apply split_aux_lines. unfold count.
+      pose proof (count_aux_nonneg recv [10%N] 0) as Hc.
+      assert (Hle : count_aux recv [10%N] 0 <= blen recv).
+      { pose proof (count_spec_eq recv [10%N]) as H1. unfold count, count_spec in H1. rewrite H1.
+        pose proof (occurrences_length recv [10%N] ltac:(discriminate)). unfold blen. lia. }
+      destruct (count_aux recv [10%N] 0 + 1 >? blen recv + 1) eqn:E; lia. }
+    unfold go_split_after, go_split. rewrite !Hg.
+    assert (Hr : (if keep then lines_raw recv true [] else lines_raw recv false []) = lines_raw recv keep [])
+      by (destruct keep; reflexivity).
+    rewrite Hr, lines_raw_spec, <- (ends_nl_suffix recv [] Hne).
+    destruct (ends_nl recv []); [apply removelast_last|apply app_nil_r]. }
+  destruct args as [|a [|b r]].
+  - cbn [length Nat.leb andb negb nth_error].
+    destruct recv as [|c t]; [reflexivity|]. cbn [of_spec]. unfold str_list, strs. do 3 f_equal.
+    apply (Hcore false). discriminate.
+  - cbn [length Nat.leb andb negb nth_error].
+    destruct a; try reflexivity.
+    destruct recv as [|c t]; [reflexivity|]. cbn [of_spec]. unfold str_list, strs. do 3 f_equal.
+    apply (Hcore b). discriminate.
+  - cbn. destruct a; reflexivity.
+Qed.
+
+(* ---- all string methods proved, as one statement *)
+(* the (method, argument tuple) pairs covered by the theorem *)
+Definition proved_case (m : meth) (args : list val) : bool :=
+  match m with
+  | MRsplit => false                                            (* not proved *)
+  | MSplit => match args with [] | VNone :: _ => false | _ => true end   (* white-space splitting not proved *)
+  | MStrip | MLstrip | MRstrip =>
+      match args with [VStr []] => false | _ => true end       (* refuted: strip_empty_cutset_refuted *)
+  | _ => true
+  end.
+
+Lemma string_methods_correct_partial2_lemma : forall m recv args,
+  proved_case m args = true ->
+  blen recv <= 2^61 ->
+  string_method m recv args = of_spec (spec_string_method (sspec m) recv args).
+Proof.
+  intros m recv args Hp Hn.
+  destruct (proved_method m) eqn:Epm.
+  - apply string_methods_correct_partial_lemma; try assumption.
+    intros Hs Hargs. subst args. destruct m; try discriminate Hs; discriminate Hp.
+  - destruct m; try discriminate Epm; cbn [string_method sspec].
+    + apply count_correct_lemma; assumption.
+    + cbn [spec_string_method]. apply split_correct_lemma; [assumption|].
+      cbn [proved_case] in Hp. destruct args as [|x r]; [discriminate|]. destruct x; try exact I. discriminate.
+    + discriminate Hp.
+    + apply splitlines_correct_lemma; assumption.
+    + apply replace_correct_lemma.
+Qed.
